@@ -147,7 +147,9 @@ func loadWorld(repo string, specDir string) (*World, error) {
 			// pkgname.Type -> resolve import
 			t = w.resolveQualified(o.Pkg, t)
 		}
-		w.opaque[t] = true
+		// an `opaque T` declaration written in package P's contract file makes T
+		// abstract in the verification conditions of P's functions
+		w.opaque[t+"@"+o.Pkg] = true
 	}
 	for a, b := range w.cs.Aliases {
 		w.aliases[a] = b
